@@ -69,6 +69,19 @@ OpsQ(S) == {Bin(op, l, r) : op \in BinQ, l \in S, r \in S}
            \cup {Opt(t, <<ODot(TRUE, "b")>>) : t \in S}
            \cup {Yield(FALSE, x) : x \in S}
 D2q(z) == D1a(z) \cup OpsQ(D1a(z))
+\* depth 3 along one spine: one deep operand, the other operands are the leaf
+OpsS(S) == {Bin(op, l, A) : op \in BinQ, l \in S} \cup {Bin(op, A, r) : op \in BinQ, r \in S}
+           \cup {Un("-", x) : x \in S} \cup {Await(x) : x \in S}
+           \cup {Asg("=", l, A) : l \in Targets(S)} \cup {Asg("=", A, r) : r \in S}
+           \cup {Cond(c, A, A) : c \in S} \cup {Cond(A, t, A) : t \in S} \cup {Cond(A, A, f) : f \in S}
+           \cup {Arrow(FALSE, x) : x \in {y \in S : ~HasYA(y)}}
+           \cup {New(c, TRUE, <<>>) : c \in S} \cup {New(c, FALSE, <<>>) : c \in S}
+           \cup {Call(f, <<>>) : f \in S} \cup {Call(A, <<x>>) : x \in S}
+           \cup {Mem(o, "b") : o \in S} \cup {Idx(A, i) : i \in S}
+           \cup {Opt(t, <<ODot(TRUE, "b")>>) : t \in S}
+           \cup {Yield(FALSE, x) : x \in S}
+D2s(z) == D1a(z) \cup OpsS(D1a(z))
+DLet(z) == Ops({Id("let")}, {A})
 
 ForLhs(z) == {A, Id("let"), Id("async"), Mem(Id("let"), "b"), Idx(Id("let"), A), Mem(A, "b"), Idx(A, A),
            Mem(Id("async"), "b"), Mem(Call(A, <<>>), "b")}
@@ -80,8 +93,9 @@ Stmts(E1, E2) ==
 
 StmtsFor(tier) ==
     CASE tier = "tiny" -> Stmts(D1a(0), D1a(0))
-      [] tier = "quick" -> Stmts(D1All(0) \cup D2q(0), D1All(0) \cup D2q(0))
-      [] tier = "thorough" -> Stmts(D1All(0) \cup D2q(0), D1All(0) \cup D2a(0))
+      [] tier = "quick" -> Stmts(D1a(0) \cup DLet(0), D1All(0) \cup D2s(0))
+      [] tier = "thorough" -> Stmts(D1All(0) \cup D2s(0), D1All(0) \cup D2q(0))
+      [] tier = "deep" -> Stmts(D1All(0) \cup D2q(0), D1All(0) \cup D2a(0))
 
 \* the listed illegal mixes (token sequences), all of which must be rejected
 Illegal(z) == {
